@@ -33,6 +33,29 @@ def declare(reg):
     S.declare_record('MemoKeyR', [('pos', 'int'), ('ruleinfo', 'RuleInfoR')])
     S.declare_record('RuleResultR', [('node', 'Val'), ('newpos', 'int')])
 
+    S.declare_record('ConfigR', [
+        ('left_recursion', 'bool'), ('memoization', 'bool'), ('prune_memos_on_cut', 'bool'), ('parseinfo', 'bool'),
+        ('ignorecase', 'bool'), ('trace', 'bool'),
+    ])
+    reg.classes['Ctx'] = {
+        'mro': ['tatsu/contexts/context.py:ParseContext', 'tatsu/contexts/engine.py:ParserEngine',
+                'tatsu/contexts/core.py:ParserCore'],
+        'fields': {'states': 'States', 'world': 'int', 'tracer': 'opaque:Tracer', '_active_config': 'ConfigR',
+                   'keywords': 'strset', 'semantics': 'opaque:Semantics'},
+        'wf': ['len(self.states.state_stack) >= 1'],
+        'isa': ['Ctx', 'ParseContext', 'ParserEngine', 'ParserCore'],
+    }
+    # grammar-model nodes are opaque objects; attributes are uninterpreted functions of the node
+    for attr, srt in {'exp': 'opaque:Model', 'sep': 'opaque:Model', 'name': 'str', 'token': 'str', 'pattern': 'str',
+                      'literal': 'Val', 'sequence': 'seq[opaque:Model]', 'options': 'seq[opaque:Model]',
+                      'expectingstr': 'str', '_rule': 'opaque:Model', 'rhs': 'opaque:Model'}.items():
+        reg.opaque_attrs[('Model', attr)] = ('attr', srt)
+    reg.opaque_attrs[('Model', '_parse')] = ('method', 'PARSE')
+    reg.opaque_attrs[('Model', '_add_defined')] = ('contract', 'tatsu/peg/base.py:Model._add_defined')
+    for m in ('trace_match', 'trace_cut', 'trace_entry', 'trace_success', 'trace_failure', 'trace_event'):
+        reg.opaque_attrs[('Tracer', m)] = ('method', 'NOOP')
+    reg.exc_attrs.update({'pos': 'int'})
+
     reg.class_alias = {
         'ParseState': 'Frame', 'AST': 'ASTD', 'Alert': 'AlertR', 'RuleInfo': 'RuleInfoR',
         'MemoKey': 'MemoKeyR', 'RuleResult': 'RuleResultR', 'ParseStateStack': 'States',
@@ -65,7 +88,7 @@ def declare(reg):
     reg.classes['AlertR'] = {'mro': ['tatsu/contexts/infos.py:Alert'], 'isa': ['Alert']}
     reg.classes['States'] = {
         'mro': ['tatsu/contexts/state.py:ParseStateStack'],
-        'fields': {'state_stack': 'seq[Frame]', 'callstack': 'seq[RuleInfoR]'},
+        'fields': {'state_stack': 'stack[Frame,1]', 'callstack': 'seq[RuleInfoR]'},
         'wf': ['len(self.state_stack) >= 1'],
         'isa': ['ParseStateStack'],
     }
